@@ -136,6 +136,9 @@ def run_tlc(module, cfg, workers=4, timeout=900, env=None, xmx="6g", dfs=False, 
     m = re.search(r"Temporal properties were violated|Action property .* is violated", out)
     if m and not r.violated:
         r.violated = "temporal"
+    m = re.search(r'"PROPERTY-VIOLATED",\s*"(\w+)"', out)
+    if m and not r.violated:
+        r.violated = m.group(1)          # Assert inside an action constraint (action properties checked per transition)
     if re.search(r"Postcondition \S+ .*is false", out) or "Postcondition" in out and "is false" in out:
         r.postcondition_false = True
     if "Deadlock reached" in out:
